@@ -198,6 +198,53 @@ def r11_slaves_lists_every_hosted_unit(ck, cx, rule='R11'):
 
 
 
+def r13_unit_id_of_the_delivered_frame(ck, cx, rule='R13'):
+    """The unit a request is routed to is the unit id the framer copies into it (populateResult) and tests against the hosted units
+    (_validate_unit_id): both read header['uid'].  That field has to be parsed from the very frame that is delivered -- if the
+    receive buffer is trimmed (resynchronisation, noise skip) after the unit id was parsed, the frame that ends up being decoded is
+    another one and is executed in the name of a unit it was not addressed to.  On every delivering path the last value stored in
+    header['uid'] reads the same version of the buffer as the bytes handed to the decoder."""
+    ck.rule(rule, 'the unit id a delivered request carries was parsed from the delivered frame: header[\'uid\'] is read from the same version of the receive buffer as the bytes handed to the decoder')
+    from ..common import annotated_copy
+    from ..framermodel import framer_paths, BUF
+    n = 0
+
+    def versions(e):
+        # the buffer versions that are SLICED / indexed in e (a version that only appears inside a slice bound is a position, not data)
+        return {x.value.id for x in ast.walk(e) if isinstance(x, ast.Subscript) and isinstance(x.value, ast.Name) and x.value.id.startswith('buffer_v')} if e is not None else set()
+    for kind in ('tcp', 'rtu', 'ascii', 'binary'):
+        cls, f, fps = framer_paths(cx, kind)
+        ck.saw('functions', f.qn)
+        for fp in fps:
+            for d in fp.deliveries:
+                hp, _ = annotated_copy(fp.path, heap=True, versioned=(BUF,))
+                dec = [ev for ev in hp.ev[:d] if ev.kind == 'call' and callee_name(ev.node) == 'decode' and getattr(ev, '_sub', None) is not None and ev._sub.args]
+                if not dec:
+                    continue
+                dv = versions(dec[-1]._sub.args[0])
+                uv = None
+                for ev in hp.ev[:d]:
+                    if ev.kind != 'assign':
+                        continue
+                    tg = getattr(ev, '_subt', None)
+                    tg = tg if isinstance(tg, ast.AST) else ev.a
+                    val = getattr(ev, '_sub', None)
+                    for t_, v_ in (zip(tg.elts, val.elts) if isinstance(tg, (ast.Tuple, ast.List)) and isinstance(val, (ast.Tuple, ast.List)) and len(tg.elts) == len(val.elts) else [(tg, val)]):
+                        if U(t_) == "self._header['uid']" and isinstance(v_, ast.AST):
+                            uv = (versions(v_), ev)
+                        elif U(t_) == 'self._header' and isinstance(v_, ast.Dict):
+                            for k_, x_ in zip(v_.keys, v_.values):
+                                if isinstance(k_, ast.Constant) and k_.value == 'uid' and versions(x_):
+                                    uv = (versions(x_), ev)
+                if uv is None or not uv[0] or not dv:
+                    continue
+                n += 1
+                ck.ob(rule, f.qn, 'unit id parsed from the buffer version that is delivered', uv[0] <= dv, detail='uid-from-stale-buffer', loc=cx.floc(f, uv[1].node),
+                      message='%s framer: header[\'uid\'] is parsed from %s, the frame handed to the decoder is cut from %s — the buffer was trimmed in between, so the request '
+                              'that is executed carries (and is routed by) the unit id of bytes that were thrown away' % (kind, sorted(uv[0]), sorted(dv)))
+    ck.floor(rule, n, 4, 'delivering framer paths with a parsed unit id')
+
+
 def r12_do_exception_contract(ck, cx, rule='R12'):
     """Every front-end answers an absent unit with request.doException(GatewayNoResponse) and a datastore fault with
     request.doException(SlaveFailure), whatever class the decoder produced (IllegalFunctionRequest included).  The answer carries the
@@ -257,4 +304,5 @@ def run(ck, tier):
     ck.guard(r8_handler_bound_to_its_server, ck, cx, 'R10')
     ck.guard(r11_slaves_lists_every_hosted_unit, ck, cx)
     ck.guard(r12_do_exception_contract, ck, cx)
+    ck.guard(r13_unit_id_of_the_delivered_frame, ck, cx)
     return cx.idx
